@@ -383,6 +383,32 @@ theorem fold_tr (c : ℝ) (F : St → St)
     · simp only [h, decide_false, if_false]
       exact ih (i + 1) cur
 
+/-! ### the wrapper's interpolation from the grid to a user point -/
+
+/-- between two grid nodes that carry the same state the wrapper returns that state: in a constant region the
+values at user points are exact -/
+theorem userAt_const (sl sh : ℕ × St) (lo hi x : ℝ) (h : sl.2 = sh.2) : (RiemannGen.userAt sl sh lo hi x).2 = sl.2 := by
+  simp only [RiemannGen.userAt]
+  split_ifs
+  · rfl
+  · rw [← h]; exact lerpS_self ..
+
+/-- in general it is the linear interpolation of the two node states (each field separately) -/
+theorem userAt_lerp (sl sh : ℕ × St) (lo hi x : ℝ) (h : lo ≠ x) :
+    (RiemannGen.userAt sl sh lo hi x).2 = RiemannGen.lerpS x lo hi sl.2 sh.2 := by
+  simp [RiemannGen.userAt, h]
+
+/-- the tables the driver splices for the fans start and end with the states the fans join (`append(append(pl,
+ps_left), px)` …): first row of the left table the left state, last row the left star values; first row of the right
+table the right star values, last row the right state -/
+theorem atoms_tables (d : RiemannIG.Data ℝ) (w : RiemannGen.Raw ℝ) :
+    (RiemannGen.atoms d w).px = w.px ∧
+    (∃ mid, (RiemannGen.atoms d w).tabL
+        = [⟨d.pl, d.rl, d.ul⟩] ++ mid ++ [⟨w.px, (RiemannGen.atoms d w).rx1, (RiemannGen.atoms d w).ux1⟩]) ∧
+    (∃ mid, (RiemannGen.atoms d w).tabR
+        = [⟨w.px, (RiemannGen.atoms d w).rx2, (RiemannGen.atoms d w).ux2⟩] ++ mid ++ [⟨d.pr, d.rr, d.ur⟩]) :=
+  ⟨rfl, ⟨_, rfl⟩, ⟨_, rfl⟩⟩
+
 /-! ### the `reg_state_geos` sequence -/
 
 theorem side_R {px p0 : ℝ} (h : px < p0) : RiemannGen.side px p0 = .R := by simp [RiemannGen.side, h]
